@@ -3,7 +3,7 @@ from . import modopt
 from .c02 import _Scn
 
 PROP = 'C07'
-SCENARIOS = [_Scn('c07.opt', modopt.DET_GAIN + ('community_louvain',), {'quick': 40000, 'thorough': 3000000}, prop=PROP)]
+SCENARIOS = [_Scn('c07.opt', modopt.DET_GAIN + ('community_louvain',), {'quick': 80000, 'thorough': 3000000}, prop=PROP)]
 RULE = ('one run = one call of a deterministic-gain optimiser from a start partition (singletons, random, planted, perturbed planted, '
         'non-contiguous labels) followed, for the routines that accept a start, by a feed-back call from its own output; every node visiting '
         'order is a SimRNG draw; the verdict compares the reference modularity of the returned partition with that of the start (tolerance 1e-9), '
